@@ -480,6 +480,15 @@ def diff_check(modes, quick_n, thorough_n, rule):
             with K.Lock():
                 K.build_repo_binary()
             git_e2e(rep, rows, tier, seed, n_for(tier, 120, 1500))
+            del rows
+            # small-scope exhaustive edit scripts over one fixed file with two linked blocks
+            stride = 16 if tier == "quick" else 1
+            rep.rules.append(f"exhaustive: a fixed 9-line file with two linked blocks; every assignment of keep / add / edit to its five non-tag lines x zero or one deleted line in each of its ten gaps (248 832 edit scripts; this tier: every {stride}-th), rendered with -U0 / -U1 / -U3 in turn; same ground truth")
+            rows = K.run_component(rep.prop, f"exdiff {stride} {mode}", [], seed, 0, tier)
+            K.correspondence(rep, rows, f"exdiff {mode}", nontrivial, known=K.load_known(rep.prop), oracle=oracle_drift)
+            for k, v in drift_known_counts(rows).items():
+                rep.count(f"exdiff {mode}:ground-truth-failure-in-known-class:{k}", v)
+            walk_tie(rep, rows, f"exdiff {mode}")
     return run
 
 
